@@ -38,8 +38,8 @@ def _mk(case):
 
     owner = Module()
     shape = tuple(case["shape"])
-    RecordTensor.create(owner, "rec", case["dt"], case["n"] * case["dt"],
-                        torch.zeros(shape, dtype=DT[case["dtype"]]))
+    RecordTensor.create(owner, "rec", case["dt"], (case["n"] - case.get("durfrac", 0.0)) * case["dt"],
+                        torch.zeros(shape, dtype=DT[case["dtype"]]), inclusive=case.get("inclusive", False))
     return owner, owner.rec
 
 
@@ -86,7 +86,18 @@ def _time(spec, n, dt, tol):
     raise ValueError(stratum)
 
 
+def _same(a, b):
+    """exact equality, NaN == NaN."""
+    return a == b or (a != a and b != b)
+
+
+def _finite(*xs):
+    return all(np.isfinite(x) for x in xs)
+
+
 def _close(a, b, f32):
+    if not _finite(a, b):
+        return _same(a, b)
     tol = 2e-5 * (1 + abs(b)) if f32 else 1e-9 * (1 + abs(b))
     return abs(a - b) <= tol
 
@@ -104,6 +115,14 @@ def run_case(case):
     with impl("prefix"):
         for i in range(pre["pushes"]):
             vals = np.array([pool[(i * 7 + j * 3) % len(pool)] * (1.0 if case["dtype"] == "int64" else 0.25) + i for j in range(numel)]).reshape(shape)
+            if pre.get("nonfinite") and case["dtype"] != "int64":
+                nf = pre["nonfinite"]
+                flat = vals.reshape(-1)
+                for j in range(flat.size):
+                    tag = nf[(i * 3 + j) % len(nf)]
+                    if tag:
+                        flat[j] = {1: np.inf, 2: -np.inf, 3: np.nan}[tag]
+                vals = flat.reshape(shape)
             rt.push(torch.tensor(vals, dtype=DT[case["dtype"]]), inplace=pre["inplace"])
             ring.push(vals)
         if pre["incr"] % n:
@@ -203,6 +222,9 @@ def run_case(case):
                     st_["on"] += 1
                 else:
                     o_, n_ = float(ring.read(off + older)[ix]), float(ring.read(off + newer)[ix])
+                    if not _finite(o_, n_) and name not in ("previous", "next", "nearest"):
+                        st_["amb"] += 1  # arithmetic on inf/nan samples is not asserted
+                        continue
                     want, amb = tm.interp(name, o_, n_, elapsed, dt, tau)
                     if amb:
                         st_["amb"] += 1
@@ -211,7 +233,7 @@ def run_case(case):
                     if o_ != n_:
                         st_["distinct_bracket"] += 1
                 check(
-                    (g[key] == want) if (status == "on" or name in ("previous", "next", "nearest")) else _close(g[key], want, f32),
+                    _same(g[key], want) if (status == "on" or name in ("previous", "next", "nearest")) else _close(g[key], want, f32),
                     f"select:{status}grid",
                     lambda: f"{what} interp={name} elem={key} t={tvals[key]!r} (dt={dt}, tol={tol}, N={n}, ptr={ptr}, "
                             f"offset={off}, {status} k={k} older={older} newer={newer} elapsed={elapsed}): got {g[key]!r} want {want!r}",
@@ -237,6 +259,11 @@ def run_case(case):
                     expect[((off + k) % n, ix)] = (x, True)
                     continue
                 o_, n_ = float(before[(off + older) % n][ix]), float(before[(off + newer) % n][ix])
+                if not _finite(o_, n_) and name not in ("previous", "next", "neighbors", "nearest"):
+                    st_["amb"] += 1  # arithmetic extrapolation from inf/nan neighbours is not asserted
+                    expect[((off + older) % n, ix)] = None
+                    expect[((off + newer) % n, ix)] = None
+                    continue
                 if name.startswith("linear") and (elapsed < 0.04 * dt or dt - elapsed < 0.04 * dt):
                     # documented division by t_s (resp. dt - t_s): not asserted near zero
                     st_["amb"] += 1
@@ -271,7 +298,7 @@ def run_case(case):
                         continue
                     wantv, exact = e[0], e[1]
                     untouched = len(e) == 3
-                    ok = (gotv == wantv) if exact else _close(gotv, wantv, f32)
+                    ok = _same(gotv, wantv) if exact else _close(gotv, wantv, f32)
                     check(ok, "insert:untouched" if untouched else "insert:written",
                           lambda: f"{what} extrap={name} slot k={k} elem={ix} times={tvals.ravel().tolist()} (dt={dt}, tol={tol}, "
                                   f"N={n}, ptr={ptr}, offset={off}, inplace={op['inplace']}): got {gotv!r} want {wantv!r} "
@@ -297,8 +324,10 @@ def run_case(case):
                     x = float(xvals[ix])
                     lin = name.startswith("linear") or name.startswith("exp")
                     okrt = _close(float(b[ix]), x, True) if lin else float(b[ix]) == x
+                    if lin and status == "off" and not _finite(float(before[(off + older) % n][ix]), float(before[(off + newer) % n][ix])):
+                        continue
                     if lin and not okrt:  # conditioning of the linear / exponential inverse
-                        okrt = abs(float(b[ix]) - x) <= 1e-3 * (1 + abs(x) + max(abs(float(v)) for h in before for v in np.ravel(h)))
+                        okrt = abs(float(b[ix]) - x) <= 1e-3 * (1 + abs(x) + max([abs(float(v)) for h in before for v in np.ravel(h) if np.isfinite(v)] + [0.0]))
                     check(okrt, "roundtrip",
                           lambda: f"{what} insert({name}) then select({rti}) at t={tvals[key]!r}: got {float(b[ix])!r} want {x!r}")
                     st_["roundtrip"] += 1
@@ -316,7 +345,7 @@ def _verify_all(rt, ring, what):
     for k in range(ring.n):
         with impl(f"read({k}) after {what}"):
             got = rt.read(k).detach().to(torch.float64).numpy().reshape(ring.shape)
-        check(np.array_equal(got, ring.read(k)), "state:drift",
+        check(np.array_equal(got, ring.read(k), equal_nan=True), "state:drift",
               lambda: f"{what}: slot {k} is {got.tolist()} but model has {ring.read(k).tolist()}")
 
 
@@ -338,7 +367,7 @@ def _op(draw):
         "op": kind, "mode": mode, "times": specs, "fn": fn,
         "tdtype": draw(st.sampled_from(["float64", "float64", "float32"])),
         "tol": draw(st.sampled_from(["0", "1e-9", "1e-6", "1e-6", "1e-3dt", "1e-3dt", "0.3dt", "0.6dt"])),
-        "offset": draw(st.integers(0, 3)),
+        "offset": draw(st.sampled_from([0, 1, 2, 3, 0, 1, -1, -2, -3])),
         "tau": draw(st.sampled_from([0.7, 2.0, 10.0])),
         "D": draw(st.integers(1, 3)),
     }
@@ -358,7 +387,9 @@ def case_strategy(draw, tier="quick"):
     return {
         "n": n, "dt": dt, "dtype": draw(st.sampled_from(["float32", "float32", "float64", "int64"])),
         "shape": shape,
+        "inclusive": draw(st.booleans()), "durfrac": draw(st.sampled_from([0.0, 0.0, 0.5, 0.25])),
         "pre": {"pushes": draw(st.integers(0, 2 * n + 3)), "inplace": draw(st.booleans()),
+                "nonfinite": draw(st.sampled_from([None, None, None, [0, 0, 1, 0, 3], [2, 0, 0, 0], [3, 0, 1, 0, 0, 2, 0]])),
                 "pool": draw(st.lists(st.integers(-20, 20), min_size=2, max_size=6)),
                 "incr": draw(st.integers(0, 8))},
         "ops": draw(st.lists(_op(), min_size=1, max_size=4 if tier == "quick" else 8)),
